@@ -14,10 +14,10 @@ mkdir -p /tmp/seeded-aside; mv tests/seeded_demo.rs /tmp/seeded-aside/$P$SFX.rs
 t1=$(timeout 600 cargo test --workspace --no-fail-fast --offline 2>&1 | grep -E "^test result" | tr '\n' ' ')
 mv /tmp/seeded-aside/$P$SFX.rs tests/seeded_demo.rs
 # 2. demo with the change
-timeout 600 cargo test --offline --test seeded_demo >/tmp/seeded-aside/$P$SFX.with.log 2>&1; r2=$?
+timeout 600 cargo test --offline $FEATS --test seeded_demo >/tmp/seeded-aside/$P$SFX.with.log 2>&1; r2=$?
 # 3. demo without the change
 git apply -R $D/patch.diff
-timeout 600 cargo test --offline --test seeded_demo >/tmp/seeded-aside/$P$SFX.without.log 2>&1; r3=$?
+timeout 600 cargo test --offline $FEATS --test seeded_demo >/tmp/seeded-aside/$P$SFX.without.log 2>&1; r3=$?
 git apply $D/patch.diff
 echo "$P$SFX: existing-suite=[$t1] demo-with-change rc=$r2 demo-without rc=$r3"
 # 4. our check
